@@ -28,6 +28,13 @@ theorem mutators_are_cas_loops :
     Facts.c13AccTryUnset = [4, 1, 3, 5] ∧ (Facts.c13AccTrySet = [4, 1, 3, 5] ∨ Facts.c13AccTrySet = []) ∧
     Facts.c13CanStopTestAndClear = 1 := by decide
 
+/-- No statement of package c2 writes a state word except through those mutators: no assignment,
+operator assignment or increment / decrement of a `state` field (or to `*s` inside c2/state.go), no atomic store /
+swap / add anywhere on one (count regenerated from all files of the package by go/parser). The
+interleaving theorems below speak about histories of `Set` / `Unset` / `SetLast` / `trySet` /
+`tryUnset` operations; this obligation is what makes them cover the package. -/
+theorem all_writes_through_mutators : Facts.c13DirectStateWrites = 0 := by decide
+
 /-- The 16 flags are 16 distinct single bits of the low half (so the high half is free for `last`). -/
 theorem flags_are_distinct_low_bits :
     allFlags = allK.map (2 ^ ·) ∧ (∀ k ∈ allK, k < 16) ∧ allK.Nodup := ⟨by decide, allK_lt, allK_nodup⟩
